@@ -1,36 +1,69 @@
 (* Proofs/Utf7Proofs.v — proofs for C16 about Model/Utf7.v. *)
 From GoImap.Base Require Import Bytes.
 From GoImap.Model Require Import Utf7.
-From GoImap.Proofs Require Import Utf7Spec.
+From GoImap.Proofs Require Import Utf7Spec Utf7Codec Utf7Lemmas.
 Open Scope N_scope.
 
 (* every valid UTF-8 name decodes back to exactly itself *)
 Lemma utf7_roundtrip : forall runes, forallb scalar runes = true ->
   utf7_decode (utf7_encode (utf8_of runes)) = Some (utf8_of runes).
-Admitted.
+Proof.
+  intros runes Hs. unfold utf7_decode, utf7_encode, utf8_of. fold (ebytes runes).
+  rewrite (map_b2n_n2b (ebytes runes)) by apply ebytes_bytes.
+  rewrite map_b2n_n2b by (apply printable_Forall; apply enc_loop_printable).
+  change (@nil N) with (rev (ebytes [])) at 1.
+  rewrite (roundtrip_loop runes [] Hs eq_refl eq_refl). reflexivity.
+Qed.
 
 (* the encoder only ever emits printable ASCII, for every input (valid UTF-8 or not) *)
 Lemma utf7_encode_printable : forall s, forallb printable_b (utf7_encode s) = true.
-Admitted.
+Proof.
+  intros s. unfold utf7_encode. apply printable_b_map. apply enc_loop_printable.
+Qed.
 
 (* whatever the decoder accepts, its output is valid UTF-8 *)
 Lemma utf7_decode_valid : forall t u, utf7_decode t = Some u -> valid_utf8 u.
-Admitted.
+Proof.
+  intros t u H. unfold utf7_decode in H.
+  destruct (dec_loop (map b2n t) (MDirect true)) as [o|] eqn:E; [|discriminate].
+  cbn [option_map] in H. inversion H; subst.
+  apply dec_loop_runes in E. destruct E as [rs [Hs Ho]].
+  exists rs. split; [exact Hs|]. unfold utf8_of. fold (ebytes rs). rewrite Ho. reflexivity.
+Qed.
 
 (* the decoder accepts only printable ASCII input *)
 Lemma utf7_decode_input_printable : forall t u, utf7_decode t = Some u -> forallb printable_b t = true.
-Admitted.
+Proof.
+  intros t u H. unfold utf7_decode in H.
+  destruct (dec_loop (map b2n t) (MDirect true)) as [o|] eqn:E; [|discriminate].
+  apply dec_loop_input_printable in E. apply printable_b_unmap. apply E.
+Qed.
 
 (* an unterminated shift is rejected *)
 Lemma utf7_reject_unterminated : forall pre b, ~ In DASHb b ->
   utf7_decode (pre ++ AMPb :: b) = None.
-Admitted.
+Proof.
+  intros pre b Hn. unfold utf7_decode. rewrite map_app. cbn [map].
+  change (b2n AMPb) with AMP.
+  rewrite dec_loop_prefix_none; [reflexivity|].
+  apply dec_unterminated_tail. apply notin_map_b2n. exact Hn.
+Qed.
 
 (* two base64 shifts may not be adjacent *)
 Lemma utf7_reject_adjacent_shifts : forall pre b1 b2 post,
   b1 <> [] -> b2 <> [] -> ~ In DASHb b1 -> ~ In DASHb b2 ->
   utf7_decode (pre ++ AMPb :: b1 ++ DASHb :: AMPb :: b2 ++ DASHb :: post) = None.
-Admitted.
+Proof.
+  intros pre b1 b2 post H1 H2 Hn1 Hn2. unfold utf7_decode.
+  rewrite map_app. cbn [map]. rewrite map_app. cbn [map]. rewrite map_app. cbn [map].
+  change (b2n AMPb) with AMP. change (b2n DASHb) with DASH.
+  rewrite dec_loop_prefix_none; [reflexivity|].
+  apply dec_adjacent_tail.
+  - destruct b1; [congruence|discriminate].
+  - destruct b2; [congruence|discriminate].
+  - apply notin_map_b2n. exact Hn1.
+  - apply notin_map_b2n. exact Hn2.
+Qed.
 
 (* a base64 shift never yields printable ASCII (it must have been written directly), and an
    accepted shift consists of alphabet characters only (no '=' padding, no stray bytes) *)
@@ -38,4 +71,12 @@ Lemma decode_b64_no_printable : forall seg out, decode_b64 seg = Some out ->
   forallb (fun c => negb (printable c)) out = true /\
   forallb (fun c => match b64val c with Some _ => true | None => false end) seg = true /\
   Nat.even (length (match b64_decode seg with Some b => b | None => [] end)) = true.
-Admitted.
+Proof.
+  intros seg out H. split; [|split].
+  - apply decode_b64_runes in H. destruct H as [rs [_ [Hn Ho]]]. subst out.
+    apply (ebytes_nonpr rs Hn).
+  - apply decode_b64_inv in H. destruct H as [b [Hb _]].
+    eapply b64_decode_alphabet. exact Hb.
+  - apply decode_b64_inv in H. destruct H as [b [Hb [Ho _]]]. rewrite Hb.
+    rewrite <- Nat.negb_odd, Ho. reflexivity.
+Qed.
